@@ -258,6 +258,9 @@ pub fn generate(t: &mut Tape, o: &ROpts) -> Scenario {
     // blocks are served in name order: names on both sides of `collateral`
     let in_names = if o.allow_names_differing_in_case && n_in >= 2 && t.chance(1, 10) {
         ["source", "Source", "gas", "GAS"]
+    } else if o.allow_names_differing_in_case && o.allow_collateral && t.chance(1, 10) {
+        // the collateral block's query goes by a fixed name
+        ["source", "collateral", "gas", "Pool"]
     } else if t.chance(1, 3) {
         ["anchor", "source", "gas", "Pool"]
     } else {
